@@ -376,6 +376,15 @@ def _trace_real_contract(mask, reflective):
         c.ensure_eq('C02.trace_real.opd_adds_index_times_length', c.val(surf.opd), opd0 + c.abs(n1 * t))   # n1 > 0: |n1 t| = n1 |t|
         c.ensure_eq('C02.trace_real.rays_left_in_global_frame', c.val(rays.x), c.val(surf.x))
         c.ensure_eq('C02.trace_real.intensity_recorded', c.val(surf.intensity), c.val(rays.i))
+        # the record is a copy: what later surfaces do to the bundle *in place* (a mirror reflects in place, propagation
+        # adds to the positions, coatings scale the intensity) must not reach back into this surface's record
+        rec0 = {a: c.val(getattr(surf, a)) for a in ('x', 'y', 'z', 'L', 'M', 'N', 'opd', 'intensity')}
+        for a in ('x', 'y', 'z', 'L', 'M', 'N', 'opd', 'i'):
+            arr_ = getattr(rays, a)
+            arr_ += 1
+            arr_ *= 3
+        for a, v0 in rec0.items():
+            c.ensure_eq('C02.trace_real.record_is_untouched_by_later_in_place_changes_of_the_bundle', c.val(getattr(surf, a)), v0)
     return tr
 
 
